@@ -13,7 +13,11 @@ MODEL = {
     'OPTIMAL_PULP_STATUS': ('const_str', 'Optimal'), 'NOTSOLVED_PULP_STATUS': ('const_str', 'Not Solved'),
 }
 IOPT = ('dict', 'Instance_options', {'NUMAGENTS': 'int', 'TWOPL': 'bool', 'PC': 'bool'})
+OPTIONS_PARSER = {'solver_options': ('dict', 'Solver_options', {'BRUTEFORCE': 'bool'}), 'instance_options': IOPT,
+                  'extra_constraints': ('dict', 'Extra_constraints', {'STAB': 'bool'}), 'optimisation_options': ('list', 'crit')}
 CLASSES = {
+    'Options_parser': OPTIONS_PARSER,
+    'Solver': {'options_parser': ('obj', 'Options_parser'), 'model': ('obj', 'Model')},
     'Model': MODEL,
     'LP_Solver': {'model': ('obj', 'Model'), 'prob': ('ext', 'LpProblem'), 'info_string': ('str', 'info'), 'solver': ('ext', 'cbc'),
                   'instance_options': IOPT, 'extra_constraints': ('dict', 'Extra_constraints', {'STAB': 'bool'}),
